@@ -403,6 +403,14 @@ def getitemTag (t : Tag) (scalar : Bool) : Tag := if scalar then .scalar else t
 /-- `reshape`/`ravel` of a NumPy scalar give a bare ndarray; arrays keep what they are -/
 def arrayTag (t : Tag) : Tag := if t = .scalar then .plain else t
 
+/-- `np.real`/`np.imag` (and the `.real`/`.imag` attributes) are not ufuncs: they return
+`val.real`, an array whenever `val` is one (also 0-d), so the kind of object is unchanged under
+either route; the other unary operations are ufuncs. -/
+def unTag (P : Policy) (u : UnOp) (t : Tag) (a : Arr) : Tag :=
+  match u with
+  | .re | .im => t
+  | _ => P.ufunc [t] a
+
 def liftA (t : Tag) (r : Except Err Arr) : Except Err Val := r.map fun a => (a, t)
 
 /-- Expression evaluation, given how variables are read and the wrapping policy. -/
@@ -421,7 +429,7 @@ def eval (P : Policy) (gs : Grids) (look : Nat → Except Err Val) : Expr → Ex
   | .un u e =>
     match eval P gs look e with
     | .error err => .error err
-    | .ok v => (Prim.unop u v.1).map fun a => (a, P.ufunc [v.2] a)
+    | .ok v => (Prim.unop u v.1).map fun a => (a, unTag P u v.2 a)
   | .red r ax e =>
     match eval P gs look e with
     | .error err => .error err
